@@ -103,43 +103,55 @@ theorem keyRange_refines {σ : Type} (o : IterOps σ) (it : σ) (xs : List Nat) 
 
 /-! ## Compiled query trees -/
 
-/-- **Main theorem.** For every valid index, every well-formed query tree of `empty / all / union /
-intersection / key-range / token-prefix` (no bound on depth or width), the compiled iterator refines the spec
-cursor over the list the query denotes. -/
-theorem compile_refines (F : Nat) (ix : Index) (hv : ix.Valid) (hF : ix.total < F) (q : SQuery) (hq : q.WF)
-    (d : Nat) (hd : depth q ≤ d) : Refines (ops F d) (compile F ix q) (q.denote ix) :=
-  B6.Lemmas.Search.compile_refines F ix hv hF q hq d hd
+/-- **Main theorem.** For every valid index of any kind — `ArrayIndex`, `TreeIndex`, or a compact index whose posting
+lists are the bytes `PostingList.Fill` writes (`CompactOK`: sorted namespace table, decodable non-zero
+`TypeAndNamespace`s) — and every well-formed query tree of `empty / all / union / intersection / key-range /
+token-prefix` (no bound on depth or width) whose key-range bounds are in the index's key domain, the compiled iterator
+refines the spec cursor over the list the query denotes.  (`Index.dom` is everything for the in-memory kinds, and
+"namespace in the file's table" for compact ones, where `Advance` panics otherwise.) -/
+theorem compile_refines (F : Nat) (ix : Index) (hv : ix.Valid) (hc : CompactOK ix) (hF : ix.total < F) (q : SQuery)
+    (hq : q.WF) (hk : q.KeysIn ix.dom) (d : Nat) (hd : depth q ≤ d) :
+    Refines (ops ix.dom F d) (compile F ix q) (q.denote ix) :=
+  B6.Lemmas.Search.compile_refines F ix hv hc hF q hq hk d hd
 
 /-- `tokenPrefix`: the scan of the sorted token list finds exactly the tokens with the prefix, and the union
 of their posting lists refines the cursor of the merged list. -/
-theorem tokenPrefix_refines (F : Nat) (ix : Index) (hv : ix.Valid) (hF : ix.total < F) (p : Token) (d : Nat)
-    (hd : 2 ≤ d) :
-    Refines (ops F d) (compile F ix (.tokenPrefix p))
+theorem tokenPrefix_refines (F : Nat) (ix : Index) (hv : ix.Valid) (hc : CompactOK ix) (hF : ix.total < F)
+    (p : Token) (d : Nat) (hd : 2 ≤ d) :
+    Refines (ops ix.dom F d) (compile F ix (.tokenPrefix p))
       (sortDedup ((ix.lists.filter (fun e => p.isPrefixOf e.1)).map (·.2)).flatten) := by
-  have := compile_refines F ix hv hF (.tokenPrefix p) (by simp [SQuery.WF]) d (by simpa [depth] using hd)
+  have := compile_refines F ix hv hc hF (.tokenPrefix p) (by simp [SQuery.WF]) (by simp [SQuery.KeysIn]) d
+    (by simpa [depth] using hd)
   simpa [SQuery.denote] using this
 
-/-- The transcript of **any** call sequence on a compiled query equals the spec cursor's transcript. -/
-theorem compile_transcript (F : Nat) (ix : Index) (hv : ix.Valid) (hF : ix.total < F) (q : SQuery) (hq : q.WF)
-    (calls : List Call) :
-    runImpl (ops F (depth q)) (compile F ix q) calls = some (runSpec (start (q.denote ix)) calls) :=
-  (compile_refines F ix hv hF q hq (depth q) (Nat.le_refl _)).run calls (fun k _ => ops_dom F (depth q) k)
+/-- The transcript of **any** call sequence (keys in the domain) on a compiled query equals the spec cursor's. -/
+theorem compile_transcript (F : Nat) (ix : Index) (hv : ix.Valid) (hc : CompactOK ix) (hF : ix.total < F)
+    (q : SQuery) (hq : q.WF) (hk : q.KeysIn ix.dom) (calls : List Call)
+    (hcalls : ∀ k, Call.advance k ∈ calls → ix.dom k) :
+    runImpl (ops ix.dom F (depth q)) (compile F ix q) calls = some (runSpec (start (q.denote ix)) calls) :=
+  (compile_refines F ix hv hc hF q hq hk (depth q) (Nat.le_refl _)).run calls
+    (fun k h => ops_dom ix.dom F (depth q) k (hcalls k h))
 
 /-- A plain `Next` loop on a compiled query yields exactly the denoted list, in increasing order. -/
-theorem compile_drain (F : Nat) (ix : Index) (hv : ix.Valid) (hF : ix.total < F) (q : SQuery) (hq : q.WF) :
-    runImpl (ops F (depth q)) (compile F ix q) (List.replicate ((q.denote ix).length + 1) Call.next) =
+theorem compile_drain (F : Nat) (ix : Index) (hv : ix.Valid) (hc : CompactOK ix) (hF : ix.total < F) (q : SQuery)
+    (hq : q.WF) (hk : q.KeysIn ix.dom) :
+    runImpl (ops ix.dom F (depth q)) (compile F ix q) (List.replicate ((q.denote ix).length + 1) Call.next) =
       some ((q.denote ix).map (fun x => (true, some x)) ++ [(false, none)]) ∧
     StrictSorted (q.denote ix) := by
   refine ⟨?_, (denote_spec ix hv q).1⟩
-  rw [compile_transcript F ix hv hF q hq]
+  rw [compile_transcript F ix hv hc hF q hq hk _ (by simp)]
   exact congrArg some (spec_drain (start (q.denote ix)))
+
+/-- in-memory indices satisfy `CompactOK` vacuously, and every key is in their domain -/
+theorem compactOK_of_not_compact (ix : Index) (h : ix.kind ≠ .compact) : CompactOK ix :=
+  fun hk => absurd hk h
 
 /-! ## Compact indices: the posting-list iterator of C08 is a leaf of the same algebra
 
 `postingOps tbl` is C08's byte-level model of `compact.Iterator`; its key domain `dom k` is "the namespace of `k` is in
 the file's namespace table" (`Advance` panics in `nt.Encode` otherwise).  All combinator theorems above are stated
-for an arbitrary `IterOps` with its `dom`, so they cover trees over compact posting lists; `compile_refines` itself
-is for the in-memory (array / tree) indices, whose closed iterator type the driver runs. -/
+for an arbitrary `IterOps` with its `dom`; `compile_refines` uses them with `posting_refines` at the compact leaves
+(`Iter.pleaf`), so the three theorems below are also instances of it. -/
 
 open B6.Model.Posting in
 /-- the compact iterator over `PostingList.Fill(token, ids)` refines the spec cursor over the ids' keys -/
@@ -175,7 +187,32 @@ example : B6.Model.Posting.TableOK B6.Props.C08.wTbl ∧ PostingOK B6.Props.C08.
 /-! ## Non-vacuity: the hypotheses hold of concrete, non-trivial values; and one worked transcript -/
 
 def exIndex : Index :=
-  ⟨.array, [("a=1".toList, [1, 4, 7, 9]), ("a=2".toList, [2, 4, 9, 12]), ("b".toList, [4, 5, 9, 20])]⟩
+  { kind := .array, lists := [("a=1".toList, [1, 4, 7, 9]), ("a=2".toList, [2, 4, 9, 12]), ("b".toList, [4, 5, 9, 20])] }
+
+/-- a compact index: keys `(type * 8192 + namespace) * 2^64 + value` over the table `["", "a", "b"]` -/
+def exCompact : Index :=
+  { kind := .compact, names := ["", "a", "b"],
+    lists := [("t".toList, [1 * 2 ^ 64 + 1, 2 * 2 ^ 64 + 5, 2 * 2 ^ 64 + 9]),
+              ("u".toList, [2 * 2 ^ 64 + 5, 2 * 2 ^ 64 + 7, 8193 * 2 ^ 64])] }
+
+example : exCompact.Valid := by
+  unfold Index.Valid exCompact StrictSorted
+  decide
+
+example : CompactOK exCompact := by
+  intro _
+  unfold exCompact B6.Model.Posting.TableOK B6.Model.Posting.TnOK
+  decide
+
+example : (SQuery.keyRange (2 * 2 ^ 64) (8193 * 2 ^ 64) (.inter [.all "t".toList, .all "u".toList])).KeysIn
+    exCompact.dom := by
+  simp [SQuery.KeysIn, SQuery.KeysInList, Index.dom, exCompact]
+
+/-- the byte-level compact leaves run: intersection of two posting lists, `Advance` then `Next` -/
+example :
+    runImpl (ops exCompact.dom 7 1) (compile 7 exCompact (.inter [.all "t".toList, .all "u".toList]))
+      [.advance (1 * 2 ^ 64 + 3), .next] = some [(true, some (2 * 2 ^ 64 + 5)), (false, none)] := by
+  decide
 
 def exQuery : SQuery :=
   .inter [.union [.all "a=1".toList, .all "a=2".toList], .keyRange 3 15 (.tokenPrefix "b".toList),
